@@ -20,7 +20,7 @@ def h_winnow(ctx, case):
     codes = []
     for i in range(n):
         if ctx.flag(f"finished[{i}]"):
-            codes.append(ctx.int(f"code[{i}]", -15, 255))
+            codes.append(ctx.int(f"code[{i}]", -2, 2))
         else:
             codes.append(None)
     procs = [P(c) for c in codes]
@@ -76,7 +76,7 @@ HARNESSES = [
             funcs=['multiprocessing_utils.winnow_process_list',
                    'winnow_process_dict'],
             bounds='1-4 workers, each unfinished or finished with a '
-                   'symbolic exit code in [-15,255]',
+                   'symbolic exit code in [-2,2] (the message formats the code, which realises it)',
             expect_reach=['raised', 'returned'], selftest=30),
     Harness('mapping_worker_faults', h_mapping_faults, setup=DP.setup,
             cases=[{'rows': 1, 'K': 1}, {'rows': 2, 'K': 1},
